@@ -7,6 +7,10 @@ import (
 	"verif/harness/sym"
 )
 
+func init() {
+	nativeAllocs = func(f func()) float64 { return testing.AllocsPerRun(20, f) }
+}
+
 // TestReplay runs one harness natively on the witness in $SYM_REPLAY.
 func TestReplay(t *testing.T) {
 	path := os.Getenv("SYM_REPLAY")
